@@ -1930,7 +1930,7 @@ def n_copysign(ex, callee, a, env):
 
 
 # ----------------------------------------------------------------------------- more str / char / integer helpers met in refactorings
-@native(r'^(core::)?str::<impl str>::(trim_start_matches|trim_end_matches|trim_matches)::<char>$', 'str::trim_*_matches::<char> (ASCII pattern)')
+@native(r'^(core::)?str::<impl str>::(trim_start_matches|trim_end_matches|trim_matches)(::<char>)?$', 'str::trim_*_matches::<char> (ASCII pattern)')
 def n_str_trim_matches(ex, callee, a, env):
     sl = as_slice(a[0])
     c = a[1]
